@@ -25,7 +25,7 @@ import (
 
 // CohMut is one store mutation.
 type CohMut struct {
-	Kind string          `json:"k"` // create | update | delete
+	Kind string          `json:"k"` // create | update | delete | init (badger backend: Store.Init with a seed for every id)
 	ID   string          `json:"id"`
 	Val  json.RawMessage `json:"v,omitempty"`
 	Y    int             `json:"y,omitempty"`    // yields inside the transaction
@@ -101,9 +101,14 @@ func (StoreCohScenario) GenCase(r *rand.Rand, prop string) interface{} {
 				if chance(r, 50) {
 					m.ID = "a"
 				}
-				if len(muts) > 0 && chance(r, 25) {
+				if len(muts) > 0 && muts[len(muts)-1].Kind != "init" && chance(r, 25) {
 					// several mutations inside one write transaction
 					m.ID, m.Cont = muts[len(muts)-1].ID, true
+				}
+				if c.Backend == "badger" && chance(r, 6) {
+					// the store is (or is not, any more) initialised with
+					// seeds under all ids; the value is the seed of each
+					m.Kind, m.Cont = "init", false
 				}
 				if c.Backend == "badger" && chance(r, 8) {
 					m.CommitErr = true
@@ -176,6 +181,7 @@ type cohRun struct {
 	h    *Hist
 	m    *miniSvc
 	st   store.Store
+	bs   *badgerstore.Store
 	mock *mockstore.Store
 	// injected commit errors, by task name
 	failCommit map[string]bool
@@ -273,7 +279,7 @@ func (StoreCohScenario) Execute(sim *sched.Sim, ci interface{}, prop string, rac
 		if c.Coll {
 			bs.SetType([]string{})
 		}
-		cr.st = bs
+		cr.st, cr.bs = bs, bs
 	}
 	// hook: with mockstore, never park while the store lock is held (the
 	// running task is the holder): transactions are atomic steps
@@ -511,6 +517,28 @@ func describeParked(sim *sched.Sim) string {
 func (cr *cohRun) mutate(muts []CohMut) {
 	for i := 0; i < len(muts); {
 		cr.sim.Yield("mut.op", strconv.Itoa(i))
+		if muts[i].Kind == "init" {
+			if cr.bs != nil {
+				cr.sim.Probe("coh.init")
+				val := cr.decodeVal(muts[i].Val)
+				name := ""
+				if t := cr.sim.Current(); t != nil {
+					name = t.Name
+				}
+				// (a refused commit: Init has then stored nothing, and must
+				// not have announced anything)
+				cr.failCommit[name] = muts[i].CommitErr
+				defer func() { cr.failCommit[name] = false }()
+				cr.bs.Init(func(add func(id string, v interface{})) error {
+					for _, id := range cohIDs {
+						add(cr.storeID(id), val)
+					}
+					return nil
+				})
+			}
+			i++
+			continue
+		}
 		wt := cr.st.Write(cr.storeID(muts[i].ID))
 		for first := true; i < len(muts) && (first || (muts[i].Cont && muts[i].ID == muts[i-1].ID)); i++ {
 			mu := muts[i]
